@@ -201,6 +201,25 @@ pub fn run_c08(cfg: &Cfg, log: &mut Log) {
                     log.count("evaluations", 1);
                     log.set("loader_cells", format!("{}:{:03b}", lname, flags));
                     log.distinct(model::rng::fnv(rc.name) ^ ((flags as u64) << 8 | ld as u64) << 48 ^ v.shape_hash());
+                    if lname == "load_mem" && rc.root.align_of() <= 64 && model::layout::max_unit(&rc.ty) > 64 {
+                        // the heap block is 64-aligned: a block with a larger unit may or may not
+                        // land on a multiple of it; both outcomes are documented
+                        match rc.root.load_case(ld, &path, flags) {
+                            Ok(case) => check_case(log, &rc, &v, lname, flags, &*case, file_len, &class),
+                            Err(Fail::Err(DeErr::Alignment)) => log.count("load_mem_refused_unit_above_64", 1),
+                            Err(f) => log.violation("C08", &format!("C08/load/{}/{}", lname, class), rc.name, Some(&v), format!("load_mem failed: {}", fail_str(&f)), vec![]),
+                        }
+                        continue;
+                    }
+                    if lname == "load_mem" && rc.root.align_of() > 64 {
+                        // documented: load_mem provides 64-byte alignment and refuses stricter types
+                        match rc.root.load_case(ld, &path, flags) {
+                            Err(Fail::Err(DeErr::Alignment)) => log.count("load_mem_refused_overaligned_type", 1),
+                            other => log.violation("C08", &format!("C08/overaligned/{}", class), rc.name, Some(&v),
+                                format!("load_mem of a type with align_of {} must return AlignmentError, got {:?}", rc.root.align_of(), other.map(|_| "a value").map_err(|f| fail_str(&f))), vec![]),
+                        }
+                        continue;
+                    }
                     match rc.root.load_case(ld, &path, flags) {
                         Ok(case) => {
                             check_case(log, &rc, &v, lname, flags, &*case, file_len, &class);
@@ -261,7 +280,11 @@ pub fn run_c09(cfg: &Cfg, log: &mut Log) {
             // (1) released exactly once.  One-time lazy initialisations (page
             // size caches, panic hook) are not leaks: a delta only counts if it
             // repeats on a second, identical load.
+            let over = rc.root.align_of() > 64 || model::layout::max_unit(&rc.ty) > 64;
             for (ld, lname, _) in loaders() {
+                if over && lname == "load_mem" {
+                    continue; // refused by design (AlignmentError): judged as a failure cause below
+                }
                 log.count("evaluations", 1);
                 let mut prev: Option<Vec<String>> = None;
                 for attempt in 0..2 {
@@ -342,6 +365,9 @@ pub fn run_c09(cfg: &Cfg, log: &mut Log) {
             for k in cuts.into_iter().filter(|k| *k < bytes.len()) {
                 causes.push((format!("truncated@{}", if k < 29 { "header" } else if k + 1 == bytes.len() { "last-byte" } else { "payload" }), Some(bytes[..k].to_vec())));
             }
+            if over {
+                causes.push(("overaligned-type".into(), Some(bytes.clone())));
+            }
             causes.push(("empty-file".into(), Some(vec![])));
             causes.push(("missing-file".into(), None));
             for (cause, content) in causes {
@@ -355,6 +381,9 @@ pub fn run_c09(cfg: &Cfg, log: &mut Log) {
                 let mut all_loaders: Vec<(Option<Loader>, &str)> = vec![(None, "load_full")];
                 all_loaders.extend(loaders().into_iter().map(|(l, n, _)| (Some(l), n)));
                 for (ld, lname) in all_loaders {
+                    if cause == "overaligned-type" && lname != "load_mem" {
+                        continue;
+                    }
                     log.count("evaluations", 1);
                     log.count("failed_loads", 1);
                     log.set("failure_causes", cause.clone());
@@ -371,7 +400,9 @@ pub fn run_c09(cfg: &Cfg, log: &mut Log) {
                         let c1 = rt::alloc::counters();
                         let m1 = maps_summary();
                         if !failed {
-                            if cause.starts_with("truncated") && zero_extending {
+                            if cause == "overaligned-type" {
+                                log.count("overaligned_but_loadable_at_this_address", 1);
+                            } else if cause.starts_with("truncated") && zero_extending {
                                 // the copying loaders zero-extend the file: a cut inside the
                                 // type name or in trailing zero bytes can legitimately load
                                 log.count("truncated_but_loadable_after_zero_extension", 1);
